@@ -320,6 +320,7 @@ func genCase(t *rapid.T, f features) (*Case, map[string]int) {
 	}
 	c.AbsMain = pct(t, "absmain", 40)
 	c.Prelude = pct(t, "prelude", 30)
+	c.Named = pct(t, "named", 30)
 	if !f.on["main-location-unknown"] {
 		for _, p := range c.Pkgs[0].Imports {
 			if to, ok := m.resolve(mainDir, p); ok && g.tr.edgeFeature("main-location-unknown", edge{mainDir, p, to}) {
@@ -429,6 +430,9 @@ func labels(c *Case, e *expectation) (ls []string, nontrivial bool) {
 	add := func(format string, a ...any) { set[fmt.Sprintf(format, a...)] = true }
 	if c.Prelude {
 		add("second-program-on-the-interpreter")
+	}
+	if c.Named {
+		add("declared-names-differ-from-directories")
 	}
 	nonGopath := false
 	targets := map[string]map[string]bool{}
